@@ -20,3 +20,4 @@ PROP = {
     "level_text": "Proof: over the life-cycle grammar of a TalkRequest object (respond then drop, or drop) every life cycle emits exactly one TALKRESP with the request id to the node address it came from - the application payload if it responded, the empty payload otherwise - and never a second one; with the channel closed (after shutdown) respond returns the error value and drop emits nothing, no state raises (exactly_one, after_shutdown). Over every history of deliveries, responds, drops (in any order, objects held concurrently, equal request ids allowed) and a shutdown at any point: never a second response for any object (never_two), nothing sent for an object still held (held_unanswered), consuming a held object while running yields exactly one TALKRESP with its id, node address and the application payload over the whole history (answered_exactly_once), nothing is sent after shutdown (after_shutdown_silent) and no use ever panics (never_panics). Tied to /repo by delivering concurrent TALKREQs through the real Service (scripted handler) with the application responding / dropping / holding in random order incl. after shutdown, counting the responses per request id.",
     "level_note": "Trusted: Lean kernel, extract.py, harness/driver. That respond(self) is followed by Drop is Rust ownership (reflected in the life-cycle grammar). The tie model<->code is a sampled differential check.",
 }
+PROP['rule'] += ' A second event-stream subscriber (op tsub2: Discv5::event_stream() called again while the first receiver stays alive) in one case out of six: every request is still answered exactly once.'
